@@ -395,9 +395,14 @@ def sample_elf(rng, cl=None, little=None, kinds=None, rich=True):
             vn, vd, vs = build_versions(little, needs, defs, rng.random() < 0.5, rng)
             vsym = b"".join(enc(little, 2, rng.choice([0, 1, 2, 3, 4, 5, 0x8002, 0x8005, 9])) for _ in range(nsyms))
             vsi = e.add(b".verstr", SHT["STRTAB"], vs)
-            e.add(b".gnu.version", SHT["GNU_VERSYM"], vsym, link=dyn_idx, entsize=2, align=2, flags=2)
-            e.add(b".gnu.version_r", SHT["GNU_VERNEED"], vn, link=vsi, info=len(needs), align=4, flags=2)
-            e.add(b".gnu.version_d", SHT["GNU_VERDEF"], vd, link=vsi, info=len(defs), align=4, flags=2)
+            # objects that only import (no definitions), only export (no needs), or lack the index table
+            parts = rng.choice(["snd", "snd", "snd", "snd", "sn", "sd", "nd", "s"])
+            if "s" in parts:
+                e.add(b".gnu.version", SHT["GNU_VERSYM"], vsym, link=dyn_idx, entsize=2, align=2, flags=2)
+            if "n" in parts:
+                e.add(b".gnu.version_r", SHT["GNU_VERNEED"], vn, link=vsi, info=len(needs), align=4, flags=2)
+            if "d" in parts:
+                e.add(b".gnu.version_d", SHT["GNU_VERDEF"], vd, link=vsi, info=len(defs), align=4, flags=2)
             info["nversyms"] = nsyms
     if "dynamic" in kinds:
         dsz = C02.size_of("dyn", cl)
@@ -406,7 +411,9 @@ def sample_elf(rng, cl=None, little=None, kinds=None, rich=True):
         e.seg(PT["DYNAMIC"], sec=di, align=8)
     if "note" in kinds:
         al = rng.choice([4, 4, 8, 1])
-        notes = [(1, b"GNU\0", b"".join(enc(little, 4, v) for v in (0, 3, 2, 0))), (3, b"GNU\0", rand_bytes(rng, 20)), (rng.randrange(0, 9), b"XY\0", rand_bytes(rng, rng.randrange(0, 9)))]
+        notes = [(1, b"GNU\0", b"".join(enc(little, 4, v) for v in (0, 3, 2, 0))), (3, b"GNU\0", rand_bytes(rng, 20)), (rng.randrange(0, 9), b"XY\0", rand_bytes(rng, rng.randrange(0, 9))),
+                 # name sizes that are multiples of 8 (and 0): with the 12-byte header the descriptor of an 8-aligned note then needs padding
+                 (rng.randrange(0, 9), rng.choice([b"FreeBSD\0", b"stapsdt\0", b"", b"CORE\0", b"0123456789abcde\0"]), rand_bytes(rng, rng.choice([0, 4, 5, 8])))]
         rng.shuffle(notes)
         ni = e.add(b".note.x", SHT["NOTE"], enc_notes(little, al, notes), align=al, flags=2)
         e.seg(PT["NOTE"], sec=ni, align=al)
